@@ -59,7 +59,8 @@ SigVariant(m, k) == CASE k = "ts-value" -> [m EXCEPT !.n = @ + 1]
                       [] k = "ts-tick" -> [m EXCEPT !.t = @ + 1]
                       [] k = "ts-tick-far" -> [m EXCEPT !.t = @ + 7]      \* past the first notes: the first message changes
                       [] k = "ks-tick-far" -> [m EXCEPT !.t = @ + 7]
-                      [] k = "ks-value" -> [m EXCEPT !.k = IF @ = "G" THEN "D" ELSE "G"]
+                      [] k = "ks-value" -> [m EXCEPT !.k = CASE @ = "G" -> "D" [] @ = "Db" -> "C#" [] @ = "F#" -> "Gb" [] @ = "Cb" -> "B"
+                                                                    [] OTHER -> "G"]    \* incl. enharmonic twins: different signatures
                       [] k = "ks-tick" -> [m EXCEPT !.t = @ + 1]
 (* one note more (after everything else, in a gap, before everything else), one note less, one signature more *)
 LastEnd(b) == MaxOf({x.e : x \in b.notes}, 0)
